@@ -326,3 +326,33 @@ package bt
 //@   requires (< (spec.sum_in tx) 18446744073709551616) (< (spec.sum_out tx) 18446744073709551616) (<= 0 (spec.sum_in tx)) (<= 0 (spec.sum_out tx))
 //@   requires (<= (spec.data_bytes tx) (spec.ser_len tx)) (<= (spec.ser_len tx) 2199023255552)
 //@   ensures[C11.fee_paid_enough_iff] (=> (= err nil) (= r0 (and (>= (old (spec.sum_in tx)) (old (spec.sum_out tx))) (>= (- (old (spec.sum_in tx)) (old (spec.sum_out tx))) (spec.quoted fees (- (old (spec.ser_len tx)) (old (spec.data_bytes tx))) (old (spec.data_bytes tx)))))))
+
+//@ func bt.(*Tx).estimatedFinalTx
+//@   bytes array
+//@   requires (spec.inputs_nonnil tx) (spec.outputs_nonnil tx)
+//@   fresh result
+//@   ensures[est_final_wf] (=> (= err nil) (and (not (nil? result)) (spec.inputs_nonnil result) (spec.out_scripts_nonnil result) (= (len (. result Inputs)) (len (. tx Inputs))) (= (len (. result Outputs)) (len (. tx Outputs)))))
+//@   ensures[C11.estimate_needs_prev_script] (=> (= err nil) (forall ((k Int)) (=> (and (<= 0 k) (< k (len (. tx Inputs)))) (not (nil? (old (. (at (. tx Inputs) k) PreviousTxScript)))))))
+//@   ensures[C11.estimate_fills_unlocking] (=> (= err nil) (forall ((k Int)) (=> (and (<= 0 k) (< k (len (. result Inputs)))) (and (not (nil? (. (at (. result Inputs) k) UnlockingScript))) (> (len (. (at (. result Inputs) k) UnlockingScript)) 0)))))
+//@   ensures[est_final_amounts] (=> (= err nil) (and (forall ((k Int)) (=> (and (<= 0 k) (< k (len (. result Inputs)))) (= (. (at (. result Inputs) k) PreviousTxSatoshis) (old (. (at (. tx Inputs) k) PreviousTxSatoshis))))) (forall ((k Int)) (=> (and (<= 0 k) (< k (len (. result Outputs)))) (= (. (at (. result Outputs) k) Satoshis) (old (. (at (. tx Outputs) k) Satoshis)))))))
+//@   loop 0 invariant (and (not (nil? tempTx)) (spec.clone_ok tempTx) (spec.out_scripts_ok tempTx) (= (len (. tempTx Inputs)) (len (. tx Inputs))) (= (len (. tempTx Outputs)) (len (. tx Outputs))))
+//@   loop 0 invariant (forall ((k Int)) (=> (and (<= 0 k) (<= k rangeindex) (< k (len (. tx Inputs)))) (and (not (nil? (old (. (at (. tx Inputs) k) PreviousTxScript)))) (not (nil? (. (at (. tempTx Inputs) k) UnlockingScript))) (> (len (. (at (. tempTx Inputs) k) UnlockingScript)) 0))))
+//@   loop 0 invariant (forall ((k Int)) (=> (and (<= 0 k) (< k (len (. tempTx Inputs)))) (and (= (. (at (. tempTx Inputs) k) PreviousTxScript) (old (. (at (. tx Inputs) k) PreviousTxScript))) (= (. (at (. tempTx Inputs) k) PreviousTxSatoshis) (old (. (at (. tx Inputs) k) PreviousTxSatoshis))) (not (nil? (. (at (. tempTx Inputs) k) UnlockingScript))))))
+//@   loop 0 invariant (forall ((k Int)) (=> (and (<= 0 k) (< k (len (. tempTx Outputs)))) (= (. (at (. tempTx Outputs) k) Satoshis) (old (. (at (. tx Outputs) k) Satoshis)))))
+
+//@ func bt.(*Tx).EstimateSize
+//@   requires (spec.inputs_nonnil tx) (spec.outputs_nonnil tx)
+//@ func bt.(*Tx).EstimateSizeWithTypes
+//@   requires (spec.inputs_nonnil tx) (spec.outputs_nonnil tx)
+//@ func bt.(*Tx).EstimateFeesPaid
+//@   requires (spec.inputs_nonnil tx) (spec.outputs_nonnil tx)
+//@   requires (=> (not (nil? fees)) (spec.wf_quote fees))
+//@   ensures[C11.estimate_fees_formula] (=> (= err nil) (and (not (nil? result)) (= (. result TotalFeePaid) (spec.quoted fees (old (spec.est_std tx)) (old (spec.est_data tx))))))
+//@ func bt.(*Tx).EstimateIsFeePaidEnough
+//@   requires (spec.inputs_nonnil tx) (spec.outputs_nonnil tx)
+//@   requires (=> (not (nil? fees)) (spec.wf_quote fees))
+//@ func bt.(*Tx).estimateDeficit
+//@   requires (spec.inputs_nonnil tx) (spec.outputs_nonnil tx)
+//@   requires (=> (not (nil? fees)) (spec.wf_quote fees))
+//@   requires (< (spec.sum_in tx) 18446744073709551616) (< (spec.sum_out tx) 18446744073709551616) (<= 0 (spec.sum_in tx)) (<= 0 (spec.sum_out tx))
+//@   ensures[C12.deficit] (=> (= err nil) (= r0 (ite (> (old (spec.sum_in tx)) (+ (old (spec.sum_out tx)) (spec.quoted fees (old (spec.est_std tx)) (old (spec.est_data tx))))) 0 (- (+ (old (spec.sum_out tx)) (spec.quoted fees (old (spec.est_std tx)) (old (spec.est_data tx)))) (old (spec.sum_in tx))))))
